@@ -522,9 +522,11 @@ def _error_rules(ck: Checker) -> None:
         head = h.loops[-1]
         if norm(g.nodes[head].ast.iter) != "entries":
             continue  # only the loop that decides which entries get created
-        r0 = g.reach([h.id], skip_node=lambda x: x.id == head)
-        conts = [x for x in r0 if g.nodes[x].kind == "stmt" and isinstance(g.nodes[x].ast, ast.Continue)]
-        if not conts:
+        # a handler that goes on to the next entry without queueing this one (by `continue`, or by falling past a
+        # try/except/else whose else-branch does the queueing)
+        queue = {x.id for x in g.nodes.values() if head in x.loops for c in calls_at(x) if is_method_call(c, "append", "add", "setdefault")}
+        r0 = g.reach([h.id], skip_node=lambda x: x.id in queue, skip_edge=lambda a, l, b: l == "exc")
+        if head not in r0:
             continue
         n_skip += 1
         oe = {x.id for x in g.nodes.values() for c in calls_at(x) if isinstance(c.func, ast.Name) and c.func.id == "onerror"}
